@@ -12,7 +12,8 @@ META = {
     "level": "other",
     "explanation": "Real gpytorch MultivariateNormal objects (dense / lazy / root / diag-plus-dense covariance operators, batched and "
                    "broadcast) with symbolic mean, covariance factor, values, base samples are driven through log_prob (fast "
-                   "and Cholesky path), kl_divergence, rsample(base_samples), variance/stddev/confidence_region, +,*,/ , "
+                   "and Cholesky path), kl_divergence, rsample(base_samples), variance/stddev/confidence_region, scale_tril, entropy, "
+                   "precision_matrix, +,*,/ , "
                    "expand, unsqueeze, add_jitter and an exhaustive list of index expressions under the ATen-level "
                    "symbolic engine; z3 proves each output equal to the Gaussian formula for all real inputs.",
     "bounds": {"quick": "N<=3; batch shapes of distribution and value in {(),(2,),(2,1)x(1,2)...} ranks 0..2; index alphabet of 8 per dim on shapes (3,),(2,3)",
